@@ -65,6 +65,25 @@ def _route_case(seed, i):
             got = type(e).__name__
         if got != ref:
             bad.append((rn, got[:40]))
+    # ... and every interpretation route reads the same value back from those bits (the same format string is reused with other
+    # keyword lengths from case to case, as a program would)
+    if ref != 'ValueError' and L is not None and not one_len and defn.get_fn is not None:
+        x = cls(bin=ref) if ref else cls()
+        want = repr(getattr(x, name))
+        readers = {'Dtype(name, L).parse': lambda: Dtype(name, L).parse(x),
+                   "unpack('name:L')": lambda: x.unpack(f'{name}:{L}')[0],
+                   "unpack('name:n', n=L)": lambda: x.unpack(f'{name}:n', n=L)[0],
+                   "unpack('name:n, bits', n=L)": lambda: x.unpack(f'{name}:n, bits', n=L)[0],
+                   "ConstBitStream.read('name:L')": lambda: ConstBitStream(x).read(f'{name}:{L}'),
+                   "ConstBitStream.readlist('name:n', n=L)": lambda: ConstBitStream(x).readlist(f'{name}:n', n=L)[0],
+                   "ConstBitStream.peeklist(['name:n'], n=L)": lambda: ConstBitStream(x).peeklist([f'{name}:n'], n=L)[0]}
+        for rn, f in readers.items():
+            try:
+                got = repr(f())
+            except Exception as e:
+                got = type(e).__name__
+            if got != want:
+                bad.append((rn, f'{got[:40]} instead of {want[:40]}'))
     return not bad, f"{cls.__name__}({name}={value!r}, length={L}) is {ref[:40]!r} but {bad[:3]}"
 
 
@@ -90,7 +109,7 @@ def route_agreement(tier='quick', seed=0):
                 break
     return {'id': 'C02.routes', 'obligations': [], 'evaluations': N,
             'bounded': [{'id': 'C02/dtypes.dtype_register/creation-routes-agree', 'qualname': 'dtypes.Register', 'shape': 'every registered dtype x routes',
-                         'function': 'keyword (length= or in the name), property, format string, pack, Dtype.build, struct codes', 'bound': f'{N} random (dtype, value, length, class) cases',
+                         'function': 'keyword (length= or in the name), property, format string, pack, Dtype.build, struct codes; property / parse / read / unpack / readlist (literal and keyword lengths) back', 'bound': f'{N} random (dtype, value, length, class) cases',
                          'evaluations': N, 'failures': fails[:6]}],
             'summary': f'{N} cases, {len(fails)} distinct failures'}
 
